@@ -58,3 +58,24 @@ def extract(api):
                       'valid_exts in static_analysis.package_modpaths (last assignment)')
     api['text_const']('src_valid_func_types', dyn.assigned('iter_module_doctestables', 'valid_func_types'),
                       'valid_func_types in dynamic_analysis.iter_module_doctestables')
+
+    # does _docnode_line_workaround take the start line from the node itself when end_lineno exists?
+    import ast as _ast
+    node = static.find_scope('TopLevelVisitor._docnode_line_workaround')
+    uses_node = False
+    found_branch = False
+    for child in _ast.walk(node) if node is not None else []:
+        if isinstance(child, _ast.If) and _ast.unparse(child.test) == "hasattr(docnode, 'end_lineno')":
+            found_branch = True
+            first = child.body[0] if child.body else None
+            if isinstance(first, _ast.Return) and _ast.unparse(first) == 'return (docnode.lineno, docnode.end_lineno)':
+                uses_node = True
+            elif not (isinstance(first, _ast.Assign) and _ast.unparse(first) == 'endpos = docnode.end_lineno - 1'):
+                failures.append('docstartUsesNodeLineno')
+    if not found_branch:
+        failures.append('docstartUsesNodeLineno')
+    emit('/-- static_analysis.TopLevelVisitor._docnode_line_workaround: on interpreters whose docstring node has `end_lineno`,')
+    emit('    is `(docnode.lineno, docnode.end_lineno)` returned directly (true) or is the start recovered by')
+    emit('    `_find_docstr_startpos_workaround` from the end line and the newline count of the value (false) -/')
+    emit('def docstartUsesNodeLineno : Bool := %s' % ('true' if uses_node else 'false'))
+    emit('')
